@@ -203,6 +203,13 @@ def differential(c, focus, n_hist, backends, cfgs, weights=None, lengths=(4, 22)
             c.prop_fail('wrong-error-class:' + rq['op'],
                         '%s answered %s where the documented error class is %s (backend %s)' % (rq['op'], resp if got is None else got, exp, be),
                         {'backend': be, 'history': h[:i + 1], 'before': prev, 'response': resp, 'expected': exp})
+        if (exp is None and rq['op'] == 'suggest' and resp.get('k') == 'err' and rq.get('alg', {}).get('kind') == 'ok'
+            and resp.get('code') != 'AlgorithmError'):
+          # an existing ACTIVE study, an algorithm that answers: nothing documents a refusal (an algorithm failure
+          # stored in an earlier operation comes back as an OPERATION carrying the error, not as an error status)
+          c.prop_fail('suggest-refused-without-documented-reason',
+                      'SuggestTrials of worker %r on an existing ACTIVE study, with an algorithm that answers, was refused with %s (backend %s)' % (rq.get('client'), resp, be),
+                      {'backend': be, 'history': h[:i + 1], 'before': prev, 'response': resp})
         if judge:
           jr = {'op': 'judge', 'before': prev, 'after': after, 'req': rq}
           if rq['op'] == 'suggest':
